@@ -12,8 +12,10 @@ use std::str::FromStr;
 
 fn run(env: &Env, ts: &[T], cfg: &str, seed: &[u8]) -> Result<IDLArgs, String> {
     let configs = Configs::from_str(cfg).map_err(|e| format!("config: {}", e))?;
-    let tys: Vec<Type> = ts.iter().map(|t| t.to_type()).collect();
-    candid_parser::random::any(seed, configs, &to_env(env), &tys, &None).map_err(|e| format!("{}", e))
+    // (labels that are hashes of these words are spelled as names, so that configuration paths such as tail.list can match)
+    let names: crate::ops::c07::Names = ["tail", "head", "stop", "more", "fork", "a", "b", "name", "id"].iter().map(|n| (candid::idl_hash(n), n.to_string())).collect();
+    let tys: Vec<Type> = ts.iter().map(|t| crate::ops::c07::to_type_named(t, &names)).collect();
+    candid_parser::random::any(seed, configs, &crate::ops::c07::to_env_named(env, &names), &tys, &None).map_err(|e| format!("{}", e))
 }
 fn seed_of(s: &str) -> Vec<u8> { sx::unhex(s) }
 
@@ -31,7 +33,16 @@ fn in_child(op: &str, a: &[&str]) -> String {
     }
 }
 
+/// every operation runs on a thread with a 1 GiB stack: recursion through vectors is as deep as the entropy lasts (a known finding of
+/// its own), and neither the generator's nor the annotator's stack use on such values may decide -- by a few bytes either way --
+/// whether a case of another kind runs to its end
 pub fn eval(op: &str, a: &[&str]) -> Option<String> {
+    if op.contains(".child") { return eval_inner(op, a); }
+    let (op2, args): (String, Vec<String>) = (op.to_string(), a.iter().map(|s| s.to_string()).collect());
+    let h = std::thread::Builder::new().stack_size(1 << 30).spawn(move || { let v: Vec<&str> = args.iter().map(|s| s.as_str()).collect(); eval_inner(&op2, &v) }).ok()?;
+    match h.join() { Ok(r) => r, Err(_) => Some("(panic)".into()) }
+}
+fn eval_inner(op: &str, a: &[&str]) -> Option<String> {
     Some(match op {
         "c20.inhabits" => {
             // a[0] env, a[1] types, a[2] config (hex), a[3] seed, a[4] the values random::any returned when the case was generated
@@ -102,6 +113,24 @@ pub fn eval(op: &str, a: &[&str]) -> Option<String> {
                 Ok(args) => { for v in &args.args { if let Err(e) = chk(&V::from_idl(v), w, lo, hi, ranged) { return Some(format!("FAIL {}", e)); } } "ok".into() }
             }
         }
+        "p.c20.depth" | "p.c20.depth.vec-recursion" => {
+            // a[4] = bound: no returned value nests deeper (the configured depth plus what a smallest value of the types needs)
+            let env = env_from_sx(a[0]); let ts = tys_from(a[1]);
+            let cfg = String::from_utf8(sx::unhex(a[2])).ok()?;
+            let bound: usize = a[4].parse().ok()?;
+            fn depth(v: &V) -> usize { 1 + match v { V::Opt(Some(x)) | V::Variant(_, x) => depth(x), V::Vec(xs) => xs.iter().map(depth).max().unwrap_or(0), V::Rec(fs) => fs.iter().map(|f| depth(&f.1)).max().unwrap_or(0), _ => 0 } }
+            match run(&env, &ts, &cfg, &seed_of(a[3])) {
+                Err(_) => "ok".into(),
+                Ok(args) => { let d = args.args.iter().map(|v| depth(&V::from_idl(v))).max().unwrap_or(0); if d <= bound { "ok".into() } else { format!("FAIL a value nests {} deep, bound {}", d, bound) } }
+            }
+        }
+        "p.c20.succeeds" => {
+            // for types that have values, do not mention `empty` and are not vector-recursive, and a valid configuration:
+            // generation returns values (running into the recursion limit instead means it did not stop at the configured depth)
+            let env = env_from_sx(a[0]); let ts = tys_from(a[1]);
+            let cfg = String::from_utf8(sx::unhex(a[2])).ok()?;
+            match run(&env, &ts, &cfg, &seed_of(a[3])) { Ok(_) => "ok".into(), Err(e) => format!("FAIL no value: {}", e.lines().next().unwrap_or("")) }
+        }
         "p.c20.config_value" => {
             // values supplied through the configuration are returned only if they have the type
             let env = env_from_sx(a[0]); let ts = tys_from(a[1]);
@@ -116,6 +145,19 @@ pub fn eval(op: &str, a: &[&str]) -> Option<String> {
     })
 }
 
+/// does some definition reach itself through a vector WITHOUT passing an opt or a variant (the choice points that stop at the
+/// depth limit)?  Generation then recurses as deep as the entropy lasts: known finding
+fn vec_recursive(env: &Env) -> bool {
+    fn go(env: &Env, t: &T, under_vec: bool, target: &str, seen: &mut Vec<(String, bool)>) -> bool {
+        match t {
+            T::Var(x) => { if x == target && under_vec { return true; } if seen.contains(&(x.clone(), under_vec)) { return false; } seen.push((x.clone(), under_vec)); env.iter().find(|d| &d.0 == x).map_or(false, |d| go(env, &d.1, under_vec, target, seen)) }
+            T::Vec(x) => go(env, x, true, target, seen),
+            T::Rec(fs) => fs.iter().any(|f| go(env, &f.1, under_vec, target, seen)),
+            _ => false,      // opt and variant are choice points: the limit stops the recursion there
+        }
+    }
+    env.iter().any(|d| go(env, &d.1, false, &d.0, &mut vec![]))
+}
 fn inhabited(r: &mut Rng, env: &Env, t: &T) -> bool { (0..6).any(|_| gen_val(r, env, t, 6).is_some()) }
 fn mentions_empty(env: &Env, t: &T, fuel: u32) -> bool {
     if fuel == 0 { return false; }
@@ -142,7 +184,7 @@ pub fn generate(thorough: bool, r: &mut Rng, em: &mut Emit) {
         ("text = \"path\"\n".into(), usize::MAX, i64::MIN, i64::MAX),
         ("text = \"name.cn\"\nwidth = 2\n".into(), usize::MAX, i64::MIN, i64::MAX),
     ];
-    for round in 0..(40 * scale) {
+    for round in 0..(16 * scale) {
         let cfg = GenCfg { max_depth: 2, refs: round % 3 == 0, var_bias: 4 };
         let k = r.range(0, 4) as usize;
         let env = gen_env(r, k, &cfg);
@@ -151,7 +193,7 @@ pub fn generate(thorough: bool, r: &mut Rng, em: &mut Emit) {
         let ts: Vec<T> = (0..n).map(|_| if !names.is_empty() && r.coin(1, 2) { let n: &String = r.pick(&names[..]); T::var(n) } else { gen_type(r, &names, 2, &cfg) }).collect();
         // types with no value at all: recursion through records / single-arm variants never ends (known finding: stack overflow), and
         // `empty` has none by definition
-        let all_inhabited = ts.iter().all(|t| inhabited(r, &env, t));
+        let all_inhabited = ts.iter().all(|t| inhabited(r, &env, t)) && env.iter().all(|d| inhabited(r, &env, &T::var(&d.0)));
         for (ci, (c, w, lo, hi)) in configs.iter().enumerate() {
             let slen = *r.pick(&[0usize, 1, 7, 64, 512, 2048]);
             let seed = r.bytes(slen);
@@ -165,9 +207,33 @@ pub fn generate(thorough: bool, r: &mut Rng, em: &mut Emit) {
             em.case_nt("p.c20.inhabits", &args, nt);
             em.case_nt("p.c20.deterministic", &args, nt);
             if *w != usize::MAX { let mut a2 = args.clone(); a2.push(w.to_string()); if *lo == i64::MIN { a2.push("-".into()); a2.push("-".into()); } else { a2.push(lo.to_string()); a2.push(hi.to_string()); } em.case_nt("p.c20.bounds", &a2, nt); }
-            let vals = match std::panic::catch_unwind(std::panic::AssertUnwindSafe(|| run(&env, &ts, c, &seed))).unwrap_or(Err("panic".into())) { Ok(a) => format!("({})", vals_sx(&a.args.iter().map(V::from_idl).collect::<Vec<_>>())), Err(_) => "err".into() };
+            if !vec_recursive(&env) && !ts.iter().any(|t| mentions_empty(&env, t, 8)) && !env.iter().any(|d| mentions_empty(&env, &d.1, 8)) && !c.contains("name") && !c.contains("path") {
+                em.case_nt("p.c20.succeeds", &args, nt);
+            }
+            // nesting bound: the configured depth (10 by default) plus what the smallest values of these small types need
+            let d: i64 = c.lines().find_map(|l| l.strip_prefix("depth = ").and_then(|x| x.trim().parse().ok())).unwrap_or(10);
+            let mut a4 = args.clone(); a4.push((d.max(0) as usize + 12).to_string());
+            em.case_nt(if vec_recursive(&env) { "p.c20.depth.vec-recursion" } else { "p.c20.depth" }, &a4, nt);
+            let vals = { let (e2, t2, c2, s2) = (env.clone(), ts.clone(), c.clone(), seed.clone()); std::thread::Builder::new().stack_size(1 << 30).spawn(move || match std::panic::catch_unwind(std::panic::AssertUnwindSafe(|| run(&e2, &t2, &c2, &s2))).unwrap_or(Err("panic".into())) { Ok(a) => format!("({})", vals_sx(&a.args.iter().map(V::from_idl).collect::<Vec<_>>())), Err(_) => "err".to_string() }).unwrap().join().unwrap_or("err".into()) };
             let mut a3 = args.clone(); a3.push(vals);
             em.case_nt("c20.inhabits", &a3, nt);
+        }
+    }
+    // depth configured for a path (one and two segments) on a recursive type: it is not re-applied at every level of the recursion
+    {
+        let env: Env = vec![("list".into(), T::opt(T::rec(vec![(candid::idl_hash("head"), T::p("nat")), (candid::idl_hash("tail"), T::var("list"))]))),
+                            ("queue".into(), T::rec(vec![(candid::idl_hash("tail"), T::var("list"))])),
+                            ("tree".into(), T::variant(vec![(candid::idl_hash("stop"), T::p("null")), (candid::idl_hash("more"), T::vec(T::var("tree"))), (candid::idl_hash("fork"), T::rec(vec![(0, T::var("tree")), (1, T::var("tree"))]))]))];
+        for c in ["list = { depth = 2 }\n", "[\"tail.list\"]\ndepth = 2\n", "tail.list = { depth = 2 }\n", "tail.list = { depth = 2, size = 50 }\n", "depth = 4\n", "tree = { depth = 4 }\n", "[tree]\ndepth = 3\nsize = 5\n"] {
+            for t in [T::var("list"), T::var("queue"), T::opt(T::var("queue")), T::var("tree"), T::rec(vec![(0, T::var("tree")), (1, T::var("list"))])] {
+                for slen in [64usize, 512, 2048] {
+                    let args = vec![env_sx(&env), tys_sx(&[t.clone()]), sx::hex(c.as_bytes()), sx::hex(&r.bytes(slen))];
+                    em.case_nt("p.c20.inhabits", &args, true);
+                    em.case_nt("p.c20.succeeds", &args, true);
+                    let mut a4 = args.clone(); a4.push("22".into());      // (the largest depth configured here is 10 by default)
+                    em.case_nt("p.c20.depth", &a4, true);
+                }
+            }
         }
     }
     // configured values: well-typed, ill-typed, unparsable
